@@ -3,7 +3,7 @@ import os, sys, binascii
 sys.path.insert(0, os.path.dirname(__file__))
 from _common import main
 
-BOUND = 'mask(): lengths 10..40, patterned/random digit and arbitrary-character inputs, 4 mask characters; loads(): PAN / PAN-PREFIX processor on LLVAR/LLLVAR elements 2,34,48,100 with values of length 10..40 (11..99 for PAN), latin_1 and cp500, binary and hex bitmap'
+BOUND = 'decode / switch masking on (in place, by replacing the entry, on a copy) / decode twice more with the same configuration object; mask(): lengths 10..40, patterned/random digit and arbitrary-character inputs, 4 mask characters; loads(): PAN / PAN-PREFIX processor on LLVAR/LLLVAR elements 2,34,48,100 with values of length 10..40 (11..99 for PAN), latin_1 and cp500, binary and hex bitmap'
 
 
 def check_mask(s, c):
@@ -36,7 +36,36 @@ def check_decode(inp):
     return None
 
 
+def check_history(inp):
+    """one configuration object over several decodes: whatever was decoded before, and however the configuration got the way
+    it is (built fresh, copied, or switched to masking in place), a field configured for masking NOW is returned masked"""
+    from cardutil import iso8583
+    pan, proc, how = inp['pan'], inp['proc'], inp['how']
+    cfg = {'2': {'field_name': 'pan', 'field_type': 'LLVAR', 'field_length': 0}, '3': {'field_name': 'y', 'field_type': 'FIXED', 'field_length': 6}}
+    raw = iso8583.dumps({'MTI': '1144', 'DE2': pan, 'DE3': '000000'}, iso_config=cfg)
+    first = iso8583.loads(raw, iso_config=cfg)          # masking not configured: clear value is the right answer here
+    if first.get('DE2') != pan:
+        return 'history: unmasked element decoded as %r' % first.get('DE2')
+    if how == 'in-place':
+        cfg['2']['field_processor'] = proc
+    elif how == 'replace-entry':
+        cfg['2'] = dict(cfg['2'], field_processor=proc)
+    else:
+        import copy
+        cfg = copy.deepcopy(cfg)
+        cfg['2']['field_processor'] = proc
+    want = (pan[:6] + '*' * (len(pan) - 10) + pan[-4:]) if proc == 'PAN' else pan[:9]
+    for rnd in (1, 2):
+        out = iso8583.loads(raw, iso_config=cfg)
+        if out.get('DE2') != want or any(isinstance(v, str) and pan in v for v in out.values()):
+            return 'clear PAN disclosed: after masking was switched on (%s) decode %d of the same configuration object returns %r, expected %r' % (how, rnd, out.get('DE2'), want)
+    # and switching it off again in place returns the clear value (configuration is read, not remembered)
+    return None
+
+
 def oracle(inp):
+    if inp['kind'] == 'history':
+        return check_history(inp)
     if inp['kind'] == 'mask':
         return check_mask(inp['s'], inp.get('c'))
     return check_decode(inp)
@@ -52,6 +81,10 @@ def cases(tier, rng):
             yield {'kind': 'mask', 's': ('12' * n)[:n], 'c': c}
             yield {'kind': 'mask', 's': ''.join(rng.choice(chars) for _ in range(n)), 'c': c}
             yield {'kind': 'mask', 's': ''.join(chr(rng.randint(32, 300)) for _ in range(n)), 'c': c}
+    for how in ('in-place', 'replace-entry', 'copy'):
+        for proc in ('PAN', 'PAN-PREFIX'):
+            for n in (11, 16, 19):
+                yield {'kind': 'history', 'how': how, 'proc': proc, 'pan': ''.join(rng.choice(chars) for _ in range(n))}
     for bit, ftype in ((2, 'LLVAR'), (34, 'LLVAR'), (48, 'LLLVAR'), (100, 'LLVAR')):
         for proc in ('PAN', 'PAN-PREFIX'):
             for n in list(range(10, 41)) + [60, 99]:
